@@ -560,9 +560,13 @@ class DAGRunConcurrentManager(DAGRunManagerLike):
                 subgraph_node_id,
                 lambda: (
                     self.__has_subgraph_error(oneof_dag)  # noqa: B023
-                    or self._node_storage.exists_result_type(
-                        subgraph_node_id,  # noqa: B023
-                        exclude_type=(Recurrent,),
+                    or (
+                        # None is a valid result of a node, so the result has to be looked up by its presence
+                        self._node_storage.exists_node_result(subgraph_node_id)  # noqa: B023
+                        and not isinstance(
+                            self._node_storage.get_node_result(subgraph_node_id),  # noqa: B023
+                            Recurrent,
+                        )
                     )
                 ),
             )
